@@ -122,13 +122,22 @@ Proof.
   rewrite seq_S, map_app, prod_list_app, IH. simpl. rewrite prod_list_cons, prod_list_nil. ring.
 Qed.
 
+Lemma nth_map_lt : forall {A} (f : A -> R) (l : list A) i (dA : A), (i < length l)%nat ->
+  nth i (map f l) 0 = f (nth i l dA).
+Proof. intros A f l. induction l as [|a l IH]; simpl; intros [|i] dA H; try lia; auto. apply IH. lia. Qed.
+
+Lemma nth_firstn_lt' : forall (l : list R) n i, (i < n)%nat -> nth i (firstn n l) 0 = nth i l 0.
+Proof. induction l as [|a l IH]; intros [|n] [|i] H; simpl; try lia; auto. apply IH. lia. Qed.
+Lemma nth_skipn' : forall (l : list R) n i, nth i (skipn n l) 0 = nth (n + i) l 0.
+Proof. induction l as [|a l IH]; intros [|n] i; simpl; auto. now destruct i. Qed.
+
 (* a list as the sequence of its elements *)
 Lemma list_as_map_nth : forall (l : list R), l = map (fun i => nth i l 0) (seq 0 (length l)).
 Proof.
   intros l. apply nth_ext with (d := 0) (d' := 0).
   - now rewrite map_length, seq_length.
-  - intros i Hi. rewrite (nth_indep _ 0 ((fun i => nth i l 0) 0%nat)) by now rewrite map_length, seq_length.
-    rewrite map_nth, seq_nth by assumption. reflexivity.
+  - intros i Hi. rewrite (nth_map_lt _ _ _ 0%nat) by now rewrite seq_length.
+    now rewrite seq_nth.
 Qed.
 Lemma sum_list_big : forall l, sum_list l = big_sum (fun i => nth i l 0) (length l).
 Proof. intros l. rewrite (list_as_map_nth l) at 1. now rewrite sum_list_map_seq. Qed.
@@ -137,12 +146,12 @@ Proof. intros l. rewrite (list_as_map_nth l) at 1. now rewrite prod_list_map_seq
 Lemma sum_list_map_big : forall (h : R -> R) l, sum_list (map h l) = big_sum (fun i => h (nth i l 0)) (length l).
 Proof.
   intros h l. rewrite sum_list_big, map_length. apply big_sum_ext. intros i Hi.
-  rewrite (nth_indep _ 0 (h 0)) by now rewrite map_length. apply map_nth.
+  now rewrite (nth_map_lt _ _ _ 0).
 Qed.
 Lemma prod_list_map_big : forall (h : R -> R) l, prod_list (map h l) = big_prod (fun i => h (nth i l 0)) (length l).
 Proof.
   intros h l. rewrite prod_list_big, map_length. apply big_prod_ext. intros i Hi.
-  rewrite (nth_indep _ 0 (h 0)) by now rewrite map_length. apply map_nth.
+  now rewrite (nth_map_lt _ _ _ 0).
 Qed.
 
 Lemma big_sum_ge : forall n f c, (forall i, (i < n)%nat -> c <= f i) -> INR n * c <= big_sum f n.
@@ -223,7 +232,7 @@ Proof. intros c n i H. revert i H. induction n as [|n IH]; intros [|i] H; simpl;
 
 Lemma py_set_length : forall l i v, (norm_idx (length l) i < length l)%nat -> length (py_set l i v) = length l.
 Proof.
-  intros l i v H. unfold py_set. rewrite app_length. simpl. rewrite firstn_length, skipn_length. lia.
+  intros l i v H. unfold py_set. cbv zeta. rewrite app_length. cbn [length]. rewrite firstn_length, skipn_length. lia.
 Qed.
 Lemma nth_py_set_nat : forall l (k j : nat) v, (k < length l)%nat ->
   nth j (py_set l (Z.of_nat k) v) 0 = if Nat.eqb j k then v else nth j l 0.
@@ -232,9 +241,9 @@ Proof.
   destruct (Nat.eqb_spec j k) as [->|N].
   - rewrite app_nth2; rewrite firstn_length; [|lia]. replace (k - Nat.min k (length l))%nat with 0%nat by lia. reflexivity.
   - destruct (Nat.lt_ge_cases j k).
-    + rewrite app_nth1 by (rewrite firstn_length; lia). apply nth_firstn_lt. assumption.
+    + rewrite app_nth1 by (rewrite firstn_length; lia). apply nth_firstn_lt'. assumption.
     + rewrite app_nth2; rewrite firstn_length; [|lia]. replace (Nat.min k (length l)) with k by lia.
-      destruct (j - k)%nat as [|d] eqn:E; [lia|]. simpl. rewrite nth_skipn. f_equal. lia.
+      destruct (j - k)%nat as [|d] eqn:E; [lia|]. cbn [nth]. rewrite nth_skipn'. f_equal. lia.
 Qed.
 
 (* the pointwise-update loop computes, slot by slot, body i (f[i]) *)
@@ -260,12 +269,9 @@ Proof.
   apply nth_ext with (d := 0) (d' := 0).
   - now rewrite map_length, seq_length.
   - intros j Hj. rewrite N.
-    rewrite (nth_indep _ 0 ((fun k => body (Z.of_nat k) (nth k f 0)) 0%nat)) by (rewrite map_length, seq_length; lia).
-    rewrite map_nth, seq_nth by lia. destruct (Nat.ltb_spec j n); [reflexivity|lia].
+    rewrite (nth_map_lt _ _ _ 0%nat) by (rewrite seq_length; lia). rewrite seq_nth by lia. simpl. destruct (Nat.ltb_spec j n); [reflexivity|lia].
 Qed.
 
-Lemma nth_firstn_lt' : forall (l : list R) n i, (i < n)%nat -> nth i (firstn n l) 0 = nth i l 0.
-Proof. intros. now apply nth_firstn_lt. Qed.
 
 Lemma prod_list_map_firstn : forall (h : R -> R) l n, (n <= length l)%nat ->
   prod_list (map h (firstn n l)) = big_prod (fun j => h (nth j l 0)) n.
@@ -276,7 +282,7 @@ Qed.
 Lemma sum_list_map_skipn : forall (h : R -> R) l n, (n <= length l)%nat ->
   sum_list (map h (skipn n l)) = big_sum (fun j => h (nth (n + j) l 0)) (length l - n).
 Proof.
-  intros h l n H. rewrite sum_list_map_big, skipn_length. apply big_sum_ext. intros i Hi. now rewrite nth_skipn.
+  intros h l n H. rewrite sum_list_map_big, skipn_length. apply big_sum_ext. intros i Hi. now rewrite nth_skipn'.
 Qed.
 Lemma sum_list_map_firstn : forall (h : R -> R) l n, (n <= length l)%nat ->
   sum_list (map h (firstn n l)) = big_sum (fun j => h (nth j l 0)) n.
